@@ -338,7 +338,7 @@ def run_property(mod, tier, seed):
     # classify violations
     known = load_known()
     new, known_hit = [], []
-    rdir = os.path.join(VERIF, 'replay', mod.ID)
+    rdir = os.path.join(os.environ.get('VERIF_REPLAY_DIR') or os.path.join(VERIF, 'replay'), mod.ID)
     for mech, v in ctx.violations.items():
         f = known.get((mod.ID, mech))
         if f is not None and f.get('status') == 'known':
@@ -375,8 +375,9 @@ def run_property(mod, tier, seed):
         'assumptions': getattr(mod, 'ASSUMPTIONS', []),
         'wall_s': round(wall, 2), 'violations': len(new),
     }
-    os.makedirs(os.path.join(VERIF, 'evidence'), exist_ok=True)
-    with open(os.path.join(VERIF, 'evidence', mod.ID + '.json'), 'w') as f:
+    evdir = os.environ.get('VERIF_EVIDENCE_DIR') or os.path.join(VERIF, 'evidence')   # redirected for runs against seeded changes
+    os.makedirs(evdir, exist_ok=True)
+    with open(os.path.join(evdir, mod.ID + '.json'), 'w') as f:
         json.dump(ev, f, indent=1, sort_keys=True)
         f.write('\n')
 
